@@ -2,7 +2,7 @@
 """Regenerates /verif/seeded/README.md from the meta.json files and the latest rows of SENSITIVITY.md."""
 import json,glob,re
 latest={}
-for line in open('/verif/seeded/SENSITIVITY.md'):
+for line in open('/verif/seeded/SENSITIVITY.md',encoding='utf-8',errors='replace'):
     m=re.match(r'\| (\S+?)(\(ported\))? \| (C\d\d) \| (\S+) \| (.*) \|$',line)
     if m: latest[(m.group(1),m.group(3))]=(m.group(4),m.group(5).strip(),bool(m.group(2)))
 rows=[]
